@@ -396,3 +396,173 @@ Proof.
   rewrite E in H. destruct H as (H1 & H2 & H3). split; [|exact H3].
   split; [rewrite H1; left; reflexivity|exact H2].
 Qed.
+
+(* ------------------------------------------------------------------ re-save of XBin files (256-character mode, uncompressed) *)
+Fixpoint glyphs_wfb (n : nat) (g : list (list N)) : bool :=
+  match g with [] => true | x :: t => (length x =? n)%nat && glyphs_wfb n t end.
+
+Lemma glyphs_wfb_Forall n g : glyphs_wfb n g = true -> Forall (fun x => length x = n) g.
+Proof.
+  induction g as [|x t IH]; cbn [glyphs_wfb]; intro H; [constructor|].
+  apply andb_prop in H as [H1 H2]. constructor; [apply Nat.eqb_eq, H1|apply IH, H2].
+Qed.
+
+Lemma default_font_sweep :
+  (f_h default_font =? 16)%N && (f_len default_font =? 256)%N && (length (f_glyphs default_font) =? 256)%nat
+  && glyphs_wfb 16 (f_glyphs default_font) = true.
+Proof. vm_compute. reflexivity. Qed.
+
+Lemma default_font_wf : font_wf 16 default_font.
+Proof.
+  pose proof default_font_sweep as H. apply andb_prop in H as [H H4]. apply andb_prop in H as [H H3]. apply andb_prop in H as [H1 H2].
+  apply N.eqb_eq in H1, H2. apply Nat.eqb_eq in H3. repeat split; try assumption. apply (glyphs_wfb_Forall 16), H4.
+Qed.
+
+Lemma glyphs_eqb_eq a : forall b, glyphs_eqb a b = true -> a = b.
+Proof.
+  induction a as [|x a IH]; intros [|y b] H; cbn [glyphs_eqb] in H; try discriminate; [reflexivity|].
+  apply andb_prop in H as [H1 H2]. destruct (list_eq_dec N.eq_dec x y) as [->|]; [|discriminate].
+  rewrite (IH b H2). reflexivity.
+Qed.
+
+Lemma dos_default_six_bit : Forall six_bit DOS_DEFAULT_PALETTE /\ length DOS_DEFAULT_PALETTE = 16%nat.
+Proof. split; [|reflexivity]. unfold DOS_DEFAULT_PALETTE. repeat constructor. Qed.
+
+(* a font made by the loader: well-formed, and if it is called the default font it is the default font *)
+Lemma loaded_font_ok fs fb f :
+  (1 <= fs <= 32)%N -> length fb = (N.to_nat fs * 256)%nat -> font_create_8 fs fb = Ok f ->
+  let nd := font_named_default f in
+  font_wf (f_h nd) nd /\ (1 <= f_h nd <= 32)%N /\ (f_default nd = true -> same_font nd default_font).
+Proof.
+  intros Hfs Hlen Hf. destruct (font_create_8_wf fs fb f ltac:(lia) ltac:(lia) Hf) as (Hwf & _).
+  destruct Hwf as (H1 & H2 & H3 & H4). cbv zeta. unfold font_named_default. cbn [f_h f_len f_default f_glyphs].
+  split; [rewrite H1; repeat split; assumption|]. split; [rewrite H1; exact Hfs|].
+  intro Hd. apply glyphs_eqb_eq in Hd. destruct default_font_wf as (D1 & D2 & D3 & D4).
+  unfold same_font. cbn [f_h f_len f_glyphs]. rewrite H2, D2, D1, Hd. split; [|split; reflexivity].
+  (* the glyph height: both fonts have the same first glyph *)
+  rewrite Hd in H4, H3. destruct (f_glyphs default_font) as [|g0 gs]; [discriminate|].
+  apply Forall_inv in H4. apply Forall_inv in D4.
+  rewrite H1. apply N2Nat.inj. rewrite <- H4. exact D4.
+Qed.
+
+Lemma take_slice_ok n l a r : take_slice n l = Ok (a, r) -> length a = n /\ l = a ++ r.
+Proof.
+  unfold take_slice. destruct (Nat.ltb_spec (length l) n) as [|Hge]; [discriminate|]. intro Heq. injection Heq as <- <-.
+  split; [apply firstn_length_le; assumption|symmetry; apply firstn_skipn].
+Qed.
+
+Lemma xb_decode_plain m ch a : xb_decode m false ch a = mkCell ch (from_u8 a m).
+Proof. unfold xb_decode. rewrite andb_false_r. reflexivity. Qed.
+
+(* a file in 256-character mode: byte 10 (the flags) has FLAG_512CHAR_MODE clear *)
+Definition xb_plain_file (data : list N) : Prop :=
+  exists flags, nth_error data 10 = Some flags /\ has_flag8 flags XBIN_FLAG_512CHAR_MODE = false.
+
+Lemma xb_load_representable : forall data s b,
+  is_bytes data -> xb_plain_file data -> load_xb data s = Ok b -> representable_xb1 (pic_of b).
+Proof.
+  intros data s b Hbytes (flags' & Hfl' & Hext) Hload. unfold load_xb in Hload.
+  destruct (Nat.ltb_spec (length data) (N.to_nat XBIN_HEADER_SIZE)) as [|_]; [discriminate|].
+  destruct data as [|i0 [|i1 [|i2 [|i3 [|eof [|wl [|wh [|hl [|hh [|fs [|flags rest]]]]]]]]]]]; try discriminate.
+  cbn [nth_error] in Hfl'. injection Hfl' as <-.
+  destruct (list_eq_dec N.eq_dec [i0; i1; i2; i3] XBIN_ID); cbn [negb] in Hload; [|discriminate].
+  set (w := Z.of_N (wl + wh * 256)) in *. set (h := Z.of_N (hl + hh * 256)) in *.
+  destruct ((w <? 1) || (4096 <? w)) eqn:Ew; [discriminate|].
+  apply orb_false_elim in Ew as [Ew1 Ew2]. apply Z.ltb_ge in Ew1, Ew2.
+  set (font_size := if (fs =? 0)%N then 16%N else fs) in *.
+  destruct (N.ltb_spec 32 font_size) as [|Hfs32]; [discriminate|].
+  assert (Hfs1 : (1 <= font_size)%N) by (unfold font_size; destruct (N.eqb_spec fs 0); lia).
+  rewrite Hext in Hload.
+  rewrite (xb_header_state s w h false (has_flag8 flags XBIN_FLAG_NON_BLINK_MODE)) in Hload.
+  set (ice := has_flag8 flags XBIN_FLAG_NON_BLINK_MODE) in *.
+  assert (Hb : is_bytes rest /\ (hl < 256)%N /\ (hh < 256)%N).
+  { unfold is_bytes in Hbytes. repeat match goal with H : Forall _ (_ :: _) |- _ => inversion H; clear H; subst end. auto. }
+  destruct Hb as (Hrest & Hhl & Hhh).
+  assert (Hh : 0 <= h <= 65535) by (unfold h; lia).
+  (* palette *)
+  assert (Hpal : exists pal rest1, is_bytes rest1 /\ length pal = 16%nat /\ Forall six_bit pal /\
+            (if has_flag8 flags XBIN_FLAG_PALETTE
+             then let* '(pb, rest0) := take_slice (N.to_nat XBIN_PALETTE_LENGTH) rest in
+                  let* pal0 := from_63 pb in Ok (set_pal (xb_base w h false ice) pal0, rest0)
+             else Ok (xb_base w h false ice, rest)) = Ok (set_pal (xb_base w h false ice) pal, rest1)).
+  { destruct (has_flag8 flags XBIN_FLAG_PALETTE).
+    - destruct (take_slice (N.to_nat XBIN_PALETTE_LENGTH) rest) as [[pb r0]| |] eqn:Ets; cbn [bind] in Hload |- *; try discriminate.
+      destruct (take_slice_ok _ _ _ _ Ets) as (Hl & ->).
+      apply Forall_app in Hrest as (Hpb & Hr0).
+      destruct (from_63 pb) as [pal0| |] eqn:E63; cbn [bind] in Hload |- *; try discriminate.
+      destruct (from_63_shape pb pal0 Hpb E63) as (H3 & H6).
+      exists pal0, r0. split; [exact Hr0|]. split; [|split; [exact H6|reflexivity]].
+      rewrite Hl in H3. change (N.to_nat XBIN_PALETTE_LENGTH) with 48%nat in H3. lia.
+    - exists DOS_DEFAULT_PALETTE, rest. destruct dos_default_six_bit as (H6 & Hl).
+      split; [exact Hrest|]. split; [exact Hl|]. split; [exact H6|reflexivity]. }
+  destruct Hpal as (pal & rest1 & Hrest1 & Hpl & Hp6 & Hpaleq). rewrite Hpaleq in Hload. cbn [bind] in Hload.
+  (* font *)
+  set (b1 := set_pal (xb_base w h false ice) pal) in *.
+  assert (Hfont : exists f rest2, is_bytes rest2 /\ font_wf (f_h f) f /\ (1 <= f_h f <= 32)%N /\
+            (f_default f = true -> same_font f default_font) /\
+            (if has_flag8 flags XBIN_FLAG_FONT
+             then let* '(fb, rest0) := take_slice (N.to_nat font_size * 256) rest1 in
+                  let* f0 := font_create_8 font_size fb in
+                  Ok (set_fonts b1 [(0%N, font_named_default f0)], rest0)
+             else Ok (b1, rest1)) = Ok (set_fonts b1 [(0%N, f)], rest2)).
+  { destruct (has_flag8 flags XBIN_FLAG_FONT).
+    - destruct (take_slice (N.to_nat font_size * 256) rest1) as [[fb r0]| |] eqn:Ets; cbn [bind] in Hload |- *; try discriminate.
+      destruct (take_slice_ok _ _ _ _ Ets) as (Hl & ->).
+      apply Forall_app in Hrest1 as (Hfb & Hr0).
+      destruct (font_create_8 font_size fb) as [f0| |] eqn:Ef; cbn [bind] in Hload |- *; try discriminate.
+      destruct (loaded_font_ok font_size fb f0 ltac:(lia) Hl Ef) as (H1 & H2 & H3).
+      exists (font_named_default f0), r0.
+      split; [exact Hr0|]. split; [exact H1|]. split; [exact H2|]. split; [exact H3|reflexivity].
+    - exists default_font, rest1. destruct default_font_wf as (D1 & D2 & D3 & D4).
+      split; [exact Hrest1|]. split; [rewrite D1; repeat split; assumption|]. split; [rewrite D1; lia|].
+      split; [intros _; unfold same_font; auto|reflexivity]. }
+  destruct Hfont as (f & rest2 & Hrest2 & Hwf & Hfh & Hdef & Hfonteq). rewrite Hfonteq in Hload. cbn [bind] in Hload.
+  destruct (has_flag8 flags XBIN_FLAG_COMPRESS); [discriminate|].
+  set (b2 := set_fonts b1 [(0%N, f)]) in *.
+  change (b_w b2) with w in Hload. change (b_ice b2) with (if ice then Ice else Blink) in Hload.
+  change (b_layer b2) with (mkLayer w h []) in Hload.
+  set (m := if ice then Ice else Blink) in *.
+  remember (xb_read_uncompressed w m false (mkLayer w h []) 0 0 rest2) as L eqn:EL.
+  assert (HLw : l_w L = w) by (rewrite EL; unfold xb_read_uncompressed; rewrite pair_loop_width; reflexivity).
+  assert (HLne : lines_nonempty (l_lines L)).
+  { rewrite EL. unfold xb_read_uncompressed. apply pair_loop_nonempty; cbn [l_w l_lines]; [lia|constructor]. }
+  assert (HLcells : all_cells (stored8 m) (l_lines L)).
+  { rewrite EL. unfold xb_read_uncompressed. apply pair_loop_all_cells with (Q := fun b => (b < 256)%N).
+    - left. reflexivity.
+    - intros ch a Hch Ha. right. exists ch, a. repeat split; try assumption. apply xb_decode_plain.
+    - exact Hrest2.
+    - cbn [l_lines]. constructor. }
+  assert (HLlen : (length (l_lines L) <= Z.to_nat h)%nat).
+  { rewrite EL. unfold xb_read_uncompressed.
+    apply (pair_loop_false_lines_bound (xb_decode m false) w rest2 (mkLayer w h []) 0 0). cbn. lia. }
+  rewrite crop_nonempty in Hload by exact HLne. cbn [b_layer set_layer l_w l_lines] in Hload. rewrite HLw in Hload.
+  set (n := Z.of_nat (length (l_lines L))) in *.
+  injection Hload as <-.
+  unfold representable_xb1, xb_common.
+  cbn [pic_of p_w p_h p_ice p_pal p_fonts b_w b_h b_ice b_pal b_fonts set_height set_layer].
+  change (b_w b2) with w. change (b_ice b2) with m. change (b_pal b2) with pal. change (b_fonts b2) with [(0%N, f)].
+  split; [split; [|split; [|split; [|split]]]|split].
+  - unfold rect. apply (pic_of_rect (set_height (set_layer b2 (mkLayer w n (l_lines L))) n)); cbn [b_w b_h set_height set_layer].
+    + change (b_w b2) with w. lia.
+    + unfold n. lia.
+  - lia.
+  - unfold n. lia.
+  - exact Hpl.
+  - exact Hp6.
+  - unfold all_pic_cells.
+    apply (pic_of_all_cells (stored8 m) (cell8_page0 m)); cbn [b_w b_h b_layer set_height set_layer l_w l_h l_lines].
+    + change (b_w b2) with w. lia.
+    + lia.
+    + left. reflexivity.
+    + exact HLcells.
+    + intros c Hc. apply stored8_seen, Hc.
+  - exists f. cbn [get_font N.eqb]. split; [reflexivity|]. split; [exact Hwf|]. split; [exact Hfh|exact Hdef].
+Qed.
+
+Lemma xb_resave_proof : forall data s b,
+  is_bytes data -> xb_plain_file data -> load_xb data s = Ok b ->
+  forall s', exists data' b', save_xb (pic_of b) = Ok data' /\ load_xb data' s' = Ok b' /\
+                              same_picture true [0%N] (pic_of b) (pic_of b').
+Proof.
+  intros data s b Hd Hp Hl s'. apply xb_roundtrip1_proof. exact (xb_load_representable data s b Hd Hp Hl).
+Qed.
